@@ -25,7 +25,7 @@ func tk(t *time.Ticket) string {
 
 func rhtDump(r *crdt.RHT) string {
 	if r == nil {
-		return "nil"
+		return "{}" // an absent attribute table and an empty one are the same value
 	}
 	var parts []string
 	for _, n := range r.Nodes() {
@@ -47,7 +47,10 @@ func dumpElem(sb *strings.Builder, e crdt.Element, ind string) {
 		sb.WriteString(ind + "<nil>\n")
 		return
 	}
-	hdr := fmt.Sprintf("c=%s m=%s r=%s", tk(e.CreatedAt()), tk(e.MovedAt()), tk(e.RemovedAt()))
+	// movedAt is only ever read through crdt.PositionedAt (movedAt, else
+	// createdAt), so an absent movedAt and one equal to createdAt are the
+	// same value; the dump shows the positioning ticket.
+	hdr := fmt.Sprintf("c=%s p=%s r=%s", tk(e.CreatedAt()), tk(crdt.PositionedAt(e)), tk(e.RemovedAt()))
 	switch v := e.(type) {
 	case *crdt.Object:
 		fmt.Fprintf(sb, "%sobj %s\n", ind, hdr)
